@@ -6,6 +6,15 @@ props=[json.loads(l) for l in open('/verif/properties.jsonl')]
 ids=[p['id'] for p in props]
 TB="trusted base: the gosym executor written for this task (validated by `gosym selftest` and by native replay of every counterexample), golang.org/x/tools/go/ssa v0.29.0, z3 4.8.12 / z3 5.1.0 / cvc5 1.0; environment stubs of DESIGN.md §3.6; bounds as listed in the evidence file"
 checks={
+ "C14": dict(level="model_checking", ref="§5 C14, §7",
+   text="Interleavings are not explored symbolically. What is decided is a sequential non-interference obligation on every explored path of every API call on shared values: the symbolic executor records the allocation epoch of every object and flags any store, map update, delete or in-place append made during the call into memory that existed before it (receiver backing arrays, word list, separator closure state, package-level variables). If no call writes shared memory, concurrent calls cannot conflict, so every interleaving is data-race free and each call returns what it returns alone (a standard argument, reasoned rather than solved). A flagged path is a candidate that is reported only after a native go test -race stress run on the same values reports a race or an invalid result.",
+   technique="write-set (allocation-epoch) analysis during bounded symbolic execution of go/ssa; candidates confirmed natively under the race detector"),
+ "C15": dict(level="model_checking", ref="§5 C15",
+   text="Purity as two solver-checked obligations: (a) after every API call the caller-visible state (public fields, the RequireSets backing array, the slice given to NewWordList, the word list) equals its value before the call; (b) history independence: for families of lookalike recipes the results of Entropy, Alphabet, SuccessProbability and Generate after an arbitrary earlier call sequence on another recipe, or after a caller-side field update, equal the results on a freshly constructed recipe, with the draws of the two Generate calls aligned so that equality is decided for all draw values.",
+   technique="bounded symbolic execution of go/ssa + SMT (QF_BV), two-run comparison with aligned draws, native replay"),
+ "C18": dict(level="model_checking", ref="§5 C18",
+   text="Explicit information flow: every value derived from a random draw (terms over draw variables, strings selected through a draw, messages formatted from them) carries taint through the symbolic execution; on every explored path of accepted, retried, exhausted and refused generations no argument of an output sink (fmt.Print*, Fprint*, log.*, os.File.Write, println) is tainted, and the diagnostics that occur are the three known ones. Native replay captures stdout, stderr and the log and searches for the password, its atoms, separators and the rejected candidates.",
+   technique="taint tracking during bounded symbolic execution of go/ssa; native replay with captured output"),
  "C06": dict(level="model_checking", ref="§5 C06",
    text="Ties the reported number to the draws actually made. Wordlist recipes: two symbolic executions of Generate on one recipe; the solver shows that equal token sequences force equal word and separator draws (and equal capitalisation draws when every word is capitalisable), so no password has more preimages than the formula allows, and Entropy() is compared with log2 of the product of the draw bounds read off the draw log. Character recipes: Entropy() against log2 of the exact number of valid strings, which by C02 are equally likely, also after a call on a sibling recipe (catches stale values). Password.Entropy == recipe.Entropy() on every accepted path of the generation harnesses.",
    technique="bounded symbolic execution of go/ssa + SMT (QF_BV), two-run injectivity queries over the draw log; float arithmetic concrete per path"),
